@@ -131,6 +131,16 @@ var keyAssign = []opt{
 	{"update_function", "UPDATE t SET id = abs({K5}) WHERE k = 1"},
 	{"update_default", "UPDATE t SET id = DEFAULT WHERE k = 1"},
 	{"update_same_value", "UPDATE t SET id = id WHERE k = 1"},
+	// a linked child table whose sharding column has another name than the parent's (added after
+	// seeded change c05-3 was missed: the key check consulted the parent's rule)
+	{"linked_child_key", "UPDATE t3 SET uid = {K5} WHERE uid = {K1}"},
+	{"linked_child_key_qualified", "UPDATE t3 SET t3.uid = {K5} WHERE k = 1"},
+	{"linked_child_key_db_qualified", "UPDATE t3 SET db.t3.uid = {K5} WHERE k = 1"},
+	{"linked_child_key_upper", "UPDATE t3 SET UID = {K5} WHERE k = 1"},
+	{"linked_child_key_alias", "UPDATE t3 AS c SET c.uid = {K5} WHERE c.k = 1"},
+	{"linked_child_key_second", "UPDATE t3 SET k = 1, uid = {K5} WHERE uid = {K1}"},
+	{"linked_same_name_key", "UPDATE t2 SET id = {K5} WHERE id = {K1}"},
+	{"linked_child_ondup", "INSERT INTO t3 (uid, k) VALUES ({K1}, 1) ON DUPLICATE KEY UPDATE uid = {K5}"},
 }
 
 func subst(s, qual string, l rig.Layout) string {
